@@ -144,6 +144,12 @@ class Interp:
         if ax is not None:
             sol.add(*ax(list(conds) + ([extra] if extra is not None else [])))
         r = sol.check()
+        if r == z3.unknown:
+            # one retry with a longer cap and the default solver (a loaded machine makes 60 s wall-clock caps flaky)
+            sol2 = z3.Solver()
+            sol2.set('timeout', 240000)
+            sol2.add(*sol.assertions())
+            r = sol2.check()
         self.stats['qtime'] += time.time() - t
         if r == z3.unknown:
             import os
